@@ -63,15 +63,15 @@ pub proof fn lemma_frame(b: Seq<u8>, len: int)
 }
 pub proof fn lemma_nibbles()
     ensures
-        forall|x: usize| x < 65536 ==> #[trigger] ((x >> 12) & 0xF) == x / 4096 % 16 && ((x >> 12) & 0xF) < 16,
-        forall|x: usize| x < 65536 ==> #[trigger] ((x >> 8) & 0xF) == x / 256 % 16 && ((x >> 8) & 0xF) < 16,
-        forall|x: usize| x < 65536 ==> #[trigger] ((x >> 4) & 0xF) == x / 16 % 16 && ((x >> 4) & 0xF) < 16,
-        forall|x: usize| x < 65536 ==> #[trigger] (x & 0xF) == x % 16 && (x & 0xF) < 16,
+        forall|x: usize| #[trigger] ((x >> 12) & 0xF) == x / 4096 % 16 && ((x >> 12) & 0xF) < 16,
+        forall|x: usize| #[trigger] ((x >> 8) & 0xF) == x / 256 % 16 && ((x >> 8) & 0xF) < 16,
+        forall|x: usize| #[trigger] ((x >> 4) & 0xF) == x / 16 % 16 && ((x >> 4) & 0xF) < 16,
+        forall|x: usize| #[trigger] (x & 0xF) == x % 16 && (x & 0xF) < 16,
 {
-    assert(forall|x: usize| x < 65536 ==> #[trigger] ((x >> 12) & 0xF) == x / 4096 % 16 && ((x >> 12) & 0xF) < 16) by (bit_vector);
-    assert(forall|x: usize| x < 65536 ==> #[trigger] ((x >> 8) & 0xF) == x / 256 % 16 && ((x >> 8) & 0xF) < 16) by (bit_vector);
-    assert(forall|x: usize| x < 65536 ==> #[trigger] ((x >> 4) & 0xF) == x / 16 % 16 && ((x >> 4) & 0xF) < 16) by (bit_vector);
-    assert(forall|x: usize| x < 65536 ==> #[trigger] (x & 0xF) == x % 16 && (x & 0xF) < 16) by (bit_vector);
+    assert(forall|x: usize| #[trigger] ((x >> 12) & 0xF) == x / 4096 % 16 && ((x >> 12) & 0xF) < 16) by (bit_vector);
+    assert(forall|x: usize| #[trigger] ((x >> 8) & 0xF) == x / 256 % 16 && ((x >> 8) & 0xF) < 16) by (bit_vector);
+    assert(forall|x: usize| #[trigger] ((x >> 4) & 0xF) == x / 16 % 16 && ((x >> 4) & 0xF) < 16) by (bit_vector);
+    assert(forall|x: usize| #[trigger] (x & 0xF) == x % 16 && (x & 0xF) < 16) by (bit_vector);
 }
 
 // One loop iteration of copy_chunked_async, proved away from the 64 KiB buffer context:
